@@ -56,6 +56,10 @@ type Flags struct {
 	CC      bool `json:"cc"`
 	TE      bool `json:"te"`
 	Device  bool `json:"device"`
+	// LaxSub: the application overrides OpenIDProvider.JWTProfileVerifier with a verifier whose SubjectCheck lets assertions with
+	// sub != iss through (delegation; vkit.ProviderSpec.LaxSubject). The signature is still the ISSUER's, so the client such an
+	// assertion authenticates - if any - is its issuer; the client named as its subject has not authenticated.
+	LaxSub bool `json:"lax_subject,omitempty"`
 }
 
 type Case struct {
@@ -132,11 +136,22 @@ var (
 		"assert-wrongkey",   // registered kid, signed with a different key
 		"assert-unknownkid", // kid that is not registered
 		"assert-otheriss",   // iss = sub = another registered client, signed with X's key
-		"assert-expired", "assert-wrongaud", "assert-subneq",
+		"assert-expired", "assert-wrongaud",
+		"assert-subneq",                                           // iss = X, sub = another registered client, signed with X's key (delegation)
+		"assert-subghost",                                         // iss = X, sub = an id that is not registered, signed with X's key
+		"assert-subempty",                                         // iss = X, sub = "", signed with X's key
+		"assert-issneq",                                           // iss = another registered client, sub = X, signed with X's key under X's kid
 		"ghost-none", "ghost-basic", "ghost-post", "ghost-assert", // the same presentations naming a client that is not registered
 	}
 	grantAssertions = []string{"right", "right", "right", "wrongkey", "unknownkid", "otheriss", "expired", "wrongaud", "ghost"}
+	// the presentations whose standing depends on the verifier's subject check (and the genuine one for comparison)
+	subjectPres = []string{"assert-subneq", "assert-subneq", "assert-subneq", "assert-subghost", "assert-subempty", "assert-issneq", "assert-right"}
 )
+
+// delegated: a client assertion whose subject is not its issuer, signed by the issuer (valid only for a lax subject check).
+func delegated(pres string) bool {
+	return pres == "assert-subneq" || pres == "assert-subghost" || pres == "assert-subempty"
+}
 
 func has(l []string, s string) bool {
 	for _, x := range l {
@@ -179,8 +194,13 @@ func genCase0(t *rapid.T) Case {
 		Post: rapid.SampledFrom(on).Draw(t, "f.post"), PKJWT: rapid.SampledFrom(on).Draw(t, "f.pkjwt"), Refresh: rapid.SampledFrom(on).Draw(t, "f.refresh"),
 		CC: rapid.SampledFrom(on).Draw(t, "f.cc"), TE: rapid.SampledFrom(on).Draw(t, "f.te"), Device: rapid.SampledFrom(on).Draw(t, "f.device"),
 	}
+	c.Flags.LaxSub = rapid.IntRange(0, 5).Draw(t, "f.laxsub") == 0
 	r := &c.Reg
 	r.AuthMethod = rapid.SampledFrom(methods).Draw(t, "method")
+	if c.Flags.LaxSub && rapid.Bool().Draw(t, "method.pkjwt") {
+		// the subject check only matters to clients that authenticate with assertions
+		r.AuthMethod = mPKJWT
+	}
 	confidential := r.AuthMethod != mNone
 	if rapid.IntRange(0, 3).Draw(t, "app.consistent") > 0 {
 		if confidential {
@@ -222,6 +242,10 @@ func genCase0(t *rapid.T) Case {
 		c.Pres = rapid.SampledFrom([]string{"basic-right", "post-right"}).Draw(t, "pres.storedsecret")
 	} else {
 		c.Pres = rapid.SampledFrom(presentations).Draw(t, "pres")
+	}
+	// assertions with sub != iss: most of the time where the verifier lets them through, now and then where it does not
+	if lim := rapid.IntRange(0, 19).Draw(t, "pres.subject"); (c.Flags.LaxSub && lim < 10) || lim == 0 {
+		c.Pres = rapid.SampledFrom(subjectPres).Draw(t, "pres.subject.kind")
 	}
 	if strings.HasPrefix(c.Pres, "basic-") || strings.HasPrefix(c.Pres, "assert-") {
 		c.BodyID = rapid.SampledFrom([]string{"", "", "", "", "", "same", "other", "ghost"}).Draw(t, "bodyid")
@@ -455,7 +479,9 @@ func authClass0(c Case) authVerdict {
 			return authVerdict{clsBad, "secret-for-pkjwt-client"}
 		}
 		return authVerdict{clsGrey, "secret-for-public-client"}
-	case p == "assert-right" || p == "assert-badtype":
+	case p == "assert-right" || p == "assert-badtype" || (delegated(p) && c.Flags.LaxSub):
+		// (a delegated assertion under a lax subject check: signed by and - if at all - authenticating its issuer X, judged by
+		// X's registration; whether the application's verifier makes it "a valid private_key_jwt assertion" for X is left open)
 		switch {
 		case secretBased:
 			return authVerdict{clsBad, "assertion-for-secret-client"}
@@ -467,6 +493,8 @@ func authClass0(c Case) authVerdict {
 			return authVerdict{clsGrey, "wrong-assertion-type"}
 		case !c.Flags.PKJWT:
 			return authVerdict{clsGrey, "pkjwt-disabled"}
+		case delegated(p):
+			return authVerdict{clsGrey, "delegated-assertion-lax-subject-check"}
 		}
 		return authVerdict{clsOK, "assertion"}
 	case strings.HasPrefix(p, "assert-"):
@@ -531,10 +559,15 @@ func consistentApp(r Reg) bool {
 // authenticated, whoever else has. A client_id that rides along (form or URL) and names the other client changes nothing
 // about that, unless the other client is one the statement lets an endpoint act for without a credential, or the request
 // happens to carry the other client's secret as well (post-other / basic-other); then the case is grey.
+//
+// The same holds for the SUBJECT of a client assertion that a lax subject check (Flags.LaxSub) lets through: iss = X, sub = the
+// other client, signed with X's key, names the other client exactly as a client_id riding along does - it is no credential of
+// that client. The caller X is judged by X's registration (grey where only the delegated assertion speaks for it), the other
+// client's material must not be honoured, and nothing may be issued to the other client.
 func judge(c Case) verdict {
 	v := judgeCaller(c)
 	zr := c.zReg()
-	if c.BodyID == "other" {
+	if c.BodyID == "other" || (c.Pres == "assert-subneq" && c.Flags.LaxSub) {
 		switch {
 		case c.Endpoint == "device_authorization":
 			v.ZServable = has(zr.Grants, vkit.GDevice)
@@ -720,6 +753,12 @@ func mkAssertion(kind string, n, o party, now time.Time) string {
 		return assertion(n.id, n.id, "https://other-op.example.com", n.kid, n.key, iat, exp)
 	case "subneq":
 		return assertion(n.id, o.id, issuer, n.kid, n.key, iat, exp)
+	case "subghost":
+		return assertion(n.id, ghostID, issuer, n.kid, n.key, iat, exp)
+	case "subempty":
+		return assertion(n.id, "", issuer, n.kid, n.key, iat, exp)
+	case "issneq":
+		return assertion(o.id, n.id, issuer, n.kid, n.key, iat, exp)
 	case "ghost":
 		return assertion(ghostID, ghostID, issuer, n.kid, n.key, iat, exp)
 	}
@@ -1224,7 +1263,7 @@ func (rq *request) do(res *vkit.Result) *outcome {
 	if resp.Success() {
 		for _, cid := range actedFor {
 			if cid != x.id && !(v.ZServable && cid == z.id) {
-				res.Fail("C05:acted-for-unauthenticated-client:"+cell, "the endpoint issued material to client %q which did not authenticate (a client_id that merely rides along in the request is no credential): %s", cid, desc())
+				res.Fail("C05:acted-for-unauthenticated-client:"+cell, "the endpoint issued material to client %q which did not authenticate (a client_id that merely rides along in the request, or the subject of an assertion signed by another client, is no credential): %s", cid, desc())
 			}
 		}
 	}
@@ -1319,6 +1358,20 @@ func (rq *request) do(res *vkit.Result) *outcome {
 		outcome = "served"
 	}
 	res.Label("router:"+c.Router, "method:"+c.Reg.AuthMethod, "pres:"+c.Pres, "outcome:"+outcome)
+	if c.Flags.LaxSub {
+		res.Label("lax-subject")
+		if delegated(c.Pres) || c.Pres == "assert-issneq" {
+			res.Label("lax-subject:"+c.Pres+":"+outcome, "lax-subject:delegated@"+w, "lax-subject:delegated:x-method:"+c.Reg.AuthMethod)
+			if c.Pres == "assert-subneq" {
+				res.Label("lax-subject:sub-names-other:z-method:" + c.zReg().AuthMethod)
+				if v.Foreign {
+					res.Label("lax-subject:sub-names-other+its-material@" + w)
+				}
+			}
+		}
+	} else if delegated(c.Pres) {
+		res.Label("strict-subject:" + c.Pres + ":" + outcome)
+	}
 	if c.BodyID != "" {
 		res.Label("bodyid:" + c.BodyID)
 		if c.RiderIn != "" {
@@ -1375,10 +1428,12 @@ func (rq *request) do(res *vkit.Result) *outcome {
 var prop = vkit.Prop[Case]{
 	ID: "C05",
 	Rule: "case = one cell of: client registration (auth method x application type x subset of the 7 grant types x registered key x service account x id/secret needing percent-encoding; " +
-		"optionally a stored secret for private_key_jwt / public clients) x credential presentation (24 kinds: nothing / client_id only / Basic right, unescaped, wrong, other client's, empty, bad %-escape, " +
-		"malformed header / POST right, wrong, other's / client assertion right, wrong type, wrong key, unknown kid, other issuer, expired, wrong audience, sub != iss / the same naming an unregistered client) " +
+		"optionally a stored secret for private_key_jwt / public clients) x credential presentation (27 kinds: nothing / client_id only / Basic right, unescaped, wrong, other client's, empty, bad %-escape, " +
+		"malformed header / POST right, wrong, other's / client assertion right, wrong type, wrong key, unknown kid, other issuer, expired, wrong audience, " +
+		"signed by the named client with sub = the other registered client / an unregistered id / empty, iss = the other client with sub = the named one / the same naming an unregistered client) " +
 		"x optional conflicting client_id form value x endpoint (token with grant_type in {6 grants, implicit, unknown, missing} / introspection / revocation / device_authorization) x parameters in body / URL / GET request " +
-		"x provider flags (post, private_key_jwt, refresh, client-credentials / token-exchange / device capability) x optional storage fault on client / secret / key lookup x router; every request carries valid grant material owned by the named client " +
+		"x provider flags (post, private_key_jwt, refresh, client-credentials / token-exchange / device capability; one case in six: an application-supplied JWTProfileVerifier whose subject check lets sub != iss through, " +
+		"half of these with one of the assertions whose subject or issuer is not the signer) x optional storage fault on client / secret / key lookup x router; every request carries valid grant material owned by the named client " +
 		"(live code + verifier + redirect_uri, live refresh token, approved device code, live subject token, genuine grant assertion, live token to introspect / revoke) " +
 		"- or, in a quarter of the cases with such material, owned by the OTHER registered client (generated live registration of its own or an inert confidential one), whose credentials the request does not carry, " +
 		"half of these with the other client's id riding along as the conflicting client_id; the conflicting client_id travels in the form body or in the URL query (for POST / client_id-only presentations as a second value). " +
@@ -1391,7 +1446,8 @@ var prop = vkit.Prop[Case]{
 		"from the confusion family (no / partial credentials, the credential of the other registration of the same id, the other client's secret, an assertion naming the other client). Every prelude request is judged by the same oracle " +
 		"against the registration in force at its time on its provider; the request under test against the registration in force at its time. " +
 		"The caller's standing (authenticated as registered, grant registered and enabled) and the client for whom honouring the material would be acting (its owner) are judged separately: material of a client the request does not authenticate must never be honoured " +
-		"(no tokens, no active:true, no revocation), whoever the caller is. " +
+		"(no tokens, no active:true, no revocation), whoever the caller is; the subject of an assertion that a lax subject check lets through names a client exactly as a client_id riding along does - " +
+		"it authenticates nobody but (at most) the issuer whose key signed it, which is judged by its own registration. " +
 		"non-trivial = must-refuse cell with valid material, or must-accept cell with a presentation other than plain Basic; distinct = the product cell",
 	Gen: genCase,
 	Run: run,
